@@ -360,8 +360,25 @@ def gen_objects(rng, n, plain=False):
             L.append("COMMENT:")
         if rng.random() < 0.35 and kind in ("VEVENT", "VTODO"):
             L += ["BEGIN:VALARM", "ACTION:" + rng.choice(["DISPLAY", "AUDIO"]), "DESCRIPTION:Reminder", "TRIGGER:-PT15M", "END:VALARM"]
-        L += ["END:" + kind, "END:VCALENDAR"]
-        objs.append(("g%d.ics" % i, kind + "/generated", ("\r\n".join(L) + "\r\n").encode()))
+        L += ["END:" + kind]
+        dts = [l for l in own if l.startswith("DTSTART:")]
+        if kind == "VEVENT" and any(l.startswith("RRULE:") for l in L) and dts and rng.random() < 0.6:
+            # one instance of the recurring event overridden: a second VEVENT with other texts.  A comp-filter matches
+            # the resource when *any* of its VEVENTs satisfies it
+            L += ["BEGIN:VEVENT", "UID:c11g-%d" % i, "DTSTAMP:20240101T000000Z", "RECURRENCE-ID:" + dts[0][8:], "DTSTART:" + dts[0][8:17] + "130000Z",
+                  "SUMMARY:" + gen.esc_text(rng.choice(["moved: notes", "Lunch with Zoë", "override", "Team meeting"]))]
+            if rng.random() < 0.5:
+                L.append("LOCATION;LANGUAGE=en:" + rng.choice(["Room 1", "Annex"]))
+            if rng.random() < 0.3:
+                L.append("X-CUSTOM:" + rng.choice(["alpha", "omega"]))
+            L += ["END:VEVENT"]
+            if rng.random() < 0.5:
+                # (also the other way round: the override first, the master last)
+                a = L.index("BEGIN:VEVENT")
+                b = L.index("BEGIN:VEVENT", a + 1)
+                L = L[:a] + L[b:] + L[a:b]
+        L += ["END:VCALENDAR"]
+        objs.append(("g%d.ics" % i, kind + ("/generated-with-override" if L.count("BEGIN:VEVENT") > 1 else "/generated"), ("\r\n".join(L) + "\r\n").encode()))
     return objs
 
 
@@ -416,8 +433,12 @@ def gen_filter(rng):
                     feats.append("param-is-not-defined")
                     pf["params"] = [{"name": par, "is_not_defined": True}]
                 else:
-                    feats.append("param-text-match")
-                    pf["params"] = [{"name": par, "text_match": {"text": rng.choice(["Doe", "ACCEPT", "en", "Amsterdam", "zzz"])}}]
+                    # (whole values too, in both cases: collations must also apply inside a param-filter)
+                    ptxt = rng.choice(["Doe", "ACCEPT", "en", "Amsterdam", "zzz", "ACCEPTED", "accepted", "declined", "EN", "doe, john", "Doe, John", "europe/amsterdam", "Europe/Amsterdam"])
+                    pcol = rng.choice([None, None, "i;octet", "i;ascii-casemap"])
+                    pneg = rng.random() < 0.2
+                    feats.append("param-text-match" + ("/" + pcol if pcol else "") + ("/negate" if pneg else ""))
+                    pf["params"] = [{"name": par, "text_match": {"text": ptxt, "collation": pcol, "negate": pneg}}]
             elif pname in ("SUMMARY", "DESCRIPTION", "LOCATION", "CATEGORIES", "UID", "X-CUSTOM", "STATUS"):
                 text = rng.choice(["meeting", "Meeting", "lunch", "LUNCH", "Team meeting", "Zoë", "zoë", "ünï", "room", "work", "Work", "alpha", "c11g-1", "NEEDS", "notes", "x,y", "zzz-nothing", "a",
                                    # whole values that differ from a stored one only in the case of a non-ASCII letter
@@ -448,6 +469,7 @@ def run_generic(run, args, rng):
     w.mkcol(colpath, "calendar")
     objs = run.upload(colpath, gen_objects(rng, args["gen_objects"]))
     res.count("objects_uploaded", len(objs))
+    res.count("objects_with_an_overridden_instance", sum(1 for v in objs.values() if v[0].endswith("with-override")))
     for i in range(args["gen_filters"]):
         flt, feats = gen_filter(rng)
         fs = "+".join(sorted(set(feats)))
@@ -516,7 +538,8 @@ def check(tier, seed, t0):
     guards = [("queries", c.get("queries", 0), 2500 * (1 if not th else 4)), ("(object, query) judgements", c.get("judgements", 0), 90000 * (1 if not th else 4)),
               ("expected matches", c.get("expected_match", 0), 5000 * k), ("expected non-matches", c.get("expected_nomatch", 0), 5000 * k),
               ("calendar-data comparisons", c.get("calendar_data_compared", 0), 3000 * k), ("reports with expanded recurrences between the filter queries (answered 207)", c.get("expand_report_status:207", 0), 50),
-              ("queries repeated with Depth 0 / no Depth whose Depth-1 answer has members", c.get("depth0_queries_whose_depth1_answer_has_members", 0), 200)]
+              ("queries repeated with Depth 0 / no Depth whose Depth-1 answer has members", c.get("depth0_queries_whose_depth1_answer_has_members", 0), 200),
+              ("generated objects holding a recurring event and an overridden instance", c.get("objects_with_an_overridden_instance", 0), 10)]
     rows = sorted({lab.rsplit("/", 1)[0] for (lab, _, _, _) in row_objects()})
     for r in rows:
         if r not in ("VFREEBUSY/none", "VJOURNAL/none"):      # FALSE by definition
